@@ -5,6 +5,7 @@ package main
 // with a scripted consumer.Metrics. A batch is what the writer emits on one Flush (one frame).
 
 import (
+	"encoding/binary"
 	"context"
 	"errors"
 	"fmt"
@@ -408,6 +409,21 @@ func runLockstepCase(name string, seed uint64) *caseOut {
 			return c
 		}
 		total += n
+		if k%2 == 1 || r.Intn(3) == 0 {
+			// an EMPTY data frame between two flushes (record count 0, a size table that says "root
+			// column empty", no column data): well formed, the format does not forbid it, a writer
+			// that flushes on a timer may produce it. It holds no record: the counters must not move.
+			bw := pkg.NewBitsWriter(0)
+			bw.WriteUvarintCompact(0)
+			bw.Close()
+			var content []byte
+			content = binary.AppendUvarint(content, 0)
+			content = binary.AppendUvarint(content, uint64(len(bw.Bytes())))
+			content = append(content, bw.Bytes()...)
+			hdr := binary.AppendUvarint([]byte{0}, uint64(len(content)))
+			pipe.WriteChunk(hdr, content)
+			c.stat("lockstep-empty-frames", 1)
+		}
 		c.emit(fmt.Sprintf("ls write %d", n), fmt.Sprintf("w=%d", w.RecordCount()))
 		if int(w.RecordCount()) != total {
 			c.fail("id-lockstep", "writer RecordCount %d after %d records", w.RecordCount(), total)
